@@ -168,6 +168,23 @@ fn shard_family() -> Family {
     }
 }
 
+/// working spaces of several MiB (thresholds such as "only above 1 MiB / 4 MiB" exist in allocators
+/// and in plausible optimisations)
+fn big_family() -> Family {
+    Family {
+        name: "big-shard-size",
+        members: vec![
+            Member { k: 8, r: 8, small: false },
+            Member { k: 2, r: 9, small: false },
+            Member { k: 4, r: 4, small: false },
+            Member { k: 1, r: 1, small: false },
+            Member { k: 8, r: 8, small: true },
+        ],
+        cfg: |m, s| (m.k, m.r, if m.small { 4160 * s } else { 524288 * s }),
+        slack: |_| 262144,
+    }
+}
+
 fn count_family() -> Family {
     Family {
         name: "shard-count",
@@ -356,6 +373,8 @@ fn check_history(fam: &Family, eng: &str, decoder: bool, kind0: Kind, steps: &[S
 fn family_by_name(n: &str) -> Family {
     if n == "shard-size" {
         shard_family()
+    } else if n == "big-shard-size" {
+        big_family()
     } else {
         count_family()
     }
@@ -421,12 +440,15 @@ pub fn run(ctx: &Ctx, rep: &mut Report) {
     let d = if ctx.thorough() { 3 } else { 2 };
     rep.bound("depth", J::i(d));
     let mut jobs: Vec<(&'static str, bool, Kind, &'static str, Vec<Step>)> = Vec::new();
-    for famname in ["shard-size", "shard-count"] {
+    for famname in ["shard-size", "shard-count", "big-shard-size"] {
         let fam = family_by_name(famname);
         for decoder in [false, true] {
             for kind0 in [Kind::Rs, Kind::Def, Kind::High, Kind::Low] {
+                if famname == "big-shard-size" && !ctx.thorough() && (kind0 == Kind::High || kind0 == Kind::Low) {
+                    continue;
+                }
                 let eng: &'static str = if kind0 == Kind::Rs { "default" } else { "nosimd" };
-                let dd = if famname == "shard-count" { d.min(2) } else { d };
+                let dd = if famname != "shard-size" { d.min(2) } else { d };
                 for h in gen(&fam, kind0, dd) {
                     if famname == "shard-count" && !ctx.thorough() && h.len() > 2 {
                         continue;
@@ -464,7 +486,7 @@ pub fn run(ctx: &Ctx, rep: &mut Report) {
     }
     rep.extra("largest_total_bytes_allocated_in_any_measured_region", J::i(max_total));
     // positive controls: growing beyond what is held must be seen by the monitor
-    for famname in ["shard-size", "shard-count"] {
+    for famname in ["shard-size", "shard-count", "big-shard-size"] {
         let fam = family_by_name(famname);
         for decoder in [false, true] {
             match check_history(&fam, "nosimd", decoder, Kind::Def, &[Step::Grow, Step::Round], seed) {
@@ -473,7 +495,7 @@ pub fn run(ctx: &Ctx, rep: &mut Report) {
             }
         }
     }
-    rep.extra("positive_controls", J::s("growing reset reported as scale-proportional allocation in 4/4 controls"));
+    rep.extra("positive_controls", J::s("growing reset reported as scale-proportional allocation in 6/6 controls"));
     for i in [0, jobs.len() / 3, jobs.len() / 2, jobs.len() - 1] {
         let (famname, decoder, kind0, eng, h) = &jobs[i];
         rep.sample(Kv::new().with("family", famname).with("eng", eng).with("dir", if *decoder { "dec" } else { "enc" }).with("kind", kind0.name()).with("steps", fmt_steps(h)).dump());
